@@ -1,0 +1,78 @@
+//go:build verif
+
+// Contracts for internal/strquote (C20: literal quoting).
+package strquote
+
+//@ spec
+//@ // bytes that may appear raw inside a double-quoted Cap'n Proto string literal
+//@ func raw(b byte) bool { return b >= 0x20 && b < 0x7f && b != '"' && b != '\\' }
+//@ // the letter of a two-character escape, 0 where the byte is written as \xNN
+//@ func escLetter(b byte) byte {
+//@ 	switch b {
+//@ 	case 7:
+//@ 		return 'a'
+//@ 	case 8:
+//@ 		return 'b'
+//@ 	case 12:
+//@ 		return 'f'
+//@ 	case 10:
+//@ 		return 'n'
+//@ 	case 13:
+//@ 		return 'r'
+//@ 	case 9:
+//@ 		return 't'
+//@ 	case 11:
+//@ 		return 'v'
+//@ 	case '\'':
+//@ 		return '\''
+//@ 	case '"':
+//@ 		return '"'
+//@ 	case '\\':
+//@ 		return '\\'
+//@ 	}
+//@ 	return 0
+//@ }
+//@ func hexOf(b byte) byte {
+//@ 	if b < 10 {
+//@ 		return '0' + b
+//@ 	}
+//@ 	return 'a' + b - 10
+//@ }
+//@ end
+
+// "every string and data literal is quoted with all quotes, backslashes and non-printable bytes
+// escaped": exactly the bytes that may not appear raw need an escape.
+//@ func needsEscape -> r
+//@   props C20
+//@   ensures r == !raw(b)
+
+//@ func hexDigit -> r
+//@   props C20
+//@   requires b < 16
+//@   ensures r == hexOf(b)
+
+//@ func Append -> r
+//@   props C20
+//@   old n0 int = len(buf)
+//@   ensures len(r) >= n0+2
+//@   -- (that the opening quote written first is still at r[n0] is not stated: it needs the contents
+//@   -- of buf carried through every append of the loop, which the solvers do not discharge in time)
+//@   ensures close: r[len(r)-1] == '"'
+//@   loop 0 "range s"
+//@     invariant 0 <= last && last <= rangeidx && rangeidx <= len(s) && len(buf) >= n0+1
+//@     invariant forall(last, rangeidx, func(j int) bool { return raw(s[j]) })
+//@   -- a run copied verbatim holds only bytes that may appear raw
+//@   assert before "buf = append(buf, s[last:i]...)" rawrun: forall(last, i, func(j int) bool { return raw(s[j]) })
+//@   -- every other byte is written as its escape: the two-character form where there is one (each
+//@   -- emitted letter is the one the byte denotes), else \xNN with the byte's two hex digits
+//@   assert after "buf = append(buf, '\\', '#0" esc_a: len(buf) >= 2 && escLetter(b) != 0 && buf[len(buf)-2] == '\\' && buf[len(buf)-1] == escLetter(b)
+//@   assert after "buf = append(buf, '\\', '#1" esc_b: len(buf) >= 2 && escLetter(b) != 0 && buf[len(buf)-2] == '\\' && buf[len(buf)-1] == escLetter(b)
+//@   assert after "buf = append(buf, '\\', '#2" esc_f: len(buf) >= 2 && escLetter(b) != 0 && buf[len(buf)-2] == '\\' && buf[len(buf)-1] == escLetter(b)
+//@   assert after "buf = append(buf, '\\', '#3" esc_n: len(buf) >= 2 && escLetter(b) != 0 && buf[len(buf)-2] == '\\' && buf[len(buf)-1] == escLetter(b)
+//@   assert after "buf = append(buf, '\\', '#4" esc_r: len(buf) >= 2 && escLetter(b) != 0 && buf[len(buf)-2] == '\\' && buf[len(buf)-1] == escLetter(b)
+//@   assert after "buf = append(buf, '\\', '#5" esc_t: len(buf) >= 2 && escLetter(b) != 0 && buf[len(buf)-2] == '\\' && buf[len(buf)-1] == escLetter(b)
+//@   assert after "buf = append(buf, '\\', '#6" esc_v: len(buf) >= 2 && escLetter(b) != 0 && buf[len(buf)-2] == '\\' && buf[len(buf)-1] == escLetter(b)
+//@   assert after "buf = append(buf, '\\', '#7" esc_apos: len(buf) >= 2 && escLetter(b) != 0 && buf[len(buf)-2] == '\\' && buf[len(buf)-1] == escLetter(b)
+//@   assert after "buf = append(buf, '\\', '#8" esc_quot: len(buf) >= 2 && escLetter(b) != 0 && buf[len(buf)-2] == '\\' && buf[len(buf)-1] == escLetter(b)
+//@   assert after "buf = append(buf, '\\', '#9" esc_bsl: len(buf) >= 2 && escLetter(b) != 0 && buf[len(buf)-2] == '\\' && buf[len(buf)-1] == escLetter(b)
+//@   assert after "buf = append(buf, '\\', '#10" esc_hex: len(buf) >= 4 && escLetter(b) == 0 && buf[len(buf)-4] == '\\' && buf[len(buf)-3] == 'x' && buf[len(buf)-2] == hexOf(b>>4) && buf[len(buf)-1] == hexOf(b&15)
